@@ -257,18 +257,27 @@ theorem C04_logical_no_escape_partial (W : World V) (hw : ∀ s, Safe (W.warn s)
 
 /-! ## fields, data classes -/
 
-theorem safe_fieldConvert (W : DataWorld V) (hw : ∀ s, Safe (W.warn s)) (o : Opts) (f : FieldDecl V) (t : Ty) (v : V) (b : Bool) :
-    Safe (fieldConvert W o f t v b) := by
+theorem safe_invalidValue (W : DataWorld V) (hw : ∀ s, Safe (W.warn s)) (o : Opts) (f : FieldDecl V) (e : Exc)
+    (he : e.isPerr = true) (raw : V) (b : Bool) : Safe (invalidValue W o f e raw b) := by
+  unfold invalidValue
+  safe_auto
+  all_goals exact safe_handleError _ _ he
+
+theorem safe_fieldConvert (W : DataWorld V) (hw : ∀ s, Safe (W.warn s)) (o : Opts) (f : FieldDecl V) (t : Ty) (v raw : V) (b : Bool) :
+    Safe (fieldConvert W o f t v raw b) := by
+  have hi := fun e => safe_invalidValue W hw o f (wrap Site.fieldValue e (some f.id)) rfl raw b
   unfold fieldConvert
   safe_auto
+  all_goals exact hi _
 
 theorem safe_parseValue (W : DataWorld V) (hw : ∀ s, Safe (W.warn s)) (L : Legacy) (hL : L.discLookup = false) (o : Opts)
     (f : FieldDecl V) (v : V) (b : Bool) : Safe (parseValue W L o f v b) := by
   have h := safe_fieldConvert W hw o f
+  have hi := fun e (he : e.isPerr = true) => safe_invalidValue W hw o f e he v b
   unfold parseValue
   simp only [hL]
   safe_auto
-  all_goals first | exact h _ _ _ | (simp at *)
+  all_goals first | exact h _ _ _ _ | exact hi _ rfl | (simp at *)
 
 /-- **a field's `parse_value` lets nothing but ParseError out** (any converter, any `to_dict`, any
 discriminator lookup) -/
@@ -565,18 +574,33 @@ theorem safe_posOnlyMissing (o : Opts) (F : FuncDecl V) (fs : List (Nat × Field
     all_goals exact ih _ _
 
 theorem safe_parseParams (W : DataWorld V) (hw : ∀ s, Safe (W.warn s)) (L : Legacy) (hL : L.dataFixed = true) (o : Opts)
-    (F : FuncDecl V) (args : List V) (kw : List (Nat × V)) : Safe (parseParams W L o F args kw) := by
+    (F : FuncDecl V) (args : List V) (kw : List (Nat × V)) (hwf : doubleBound F args kw = false) :
+    Safe (parseParams W L o F args kw) := by
   have h1 := safe_posArgs W hw L (by simp [Legacy.dataFixed] at hL; exact hL.2) o F args
   have h2 := safe_posOnlyMissing o F F.posOnly
   have h3 := fun ex => safe_parseData W hw L hL o F.parser ex kw
   unfold parseParams
+  simp only [hwf]
   safe_auto
-  all_goals first | exact h1 _ _ _ | exact h2 _ _ | exact h3 _
+  all_goals first | exact h1 _ _ _ | exact h2 _ _ | exact h3 _ | (simp at *)
 
-/-- **argument parsing of a decorated function lets nothing but ParseError out** -/
+/-- **argument parsing of a decorated function lets nothing but ParseError out** — for a well-formed CALL.
+A call that binds a parameter by position and again by keyword is not an input that fails to parse: it is answered
+with Python's own `TypeError: f() got multiple values for argument` (`C04_double_binding_is_the_callers_type_error`),
+by CPython when the function has no **kwargs and by utype (func.py:627-642) otherwise. -/
 theorem C04_parse_params_no_escape (W : DataWorld V) (hw : ∀ s, Safe (W.warn s)) (o : Opts) (F : FuncDecl V) (args : List V)
-    (kw : List (Nat × V)) : Safe (parseParams W Legacy.none o F args kw) :=
-  safe_parseParams W hw Legacy.none rfl o F args kw
+    (kw : List (Nat × V)) (hwf : doubleBound F args kw = false) : Safe (parseParams W Legacy.none o F args kw) :=
+  safe_parseParams W hw Legacy.none rfl o F args kw hwf
+
+/-- the ill-formed call: nothing is parsed, nothing is collected, no event is emitted, the body is not entered — the
+call IS the TypeError, in the state it was made in (any `Legacy`, any components) -/
+theorem C04_double_binding_is_the_callers_type_error (W : DataWorld V) (L : Legacy) (o : Opts) (F : FuncDecl V)
+    (body : List V → List (Nat × V) → M V) (args : List V) (kw : List (Nat × V)) (s : St)
+    (hdb : doubleBound F args kw = true) :
+    syncCall W L o F body args kw s = (.raise (builtinExc K.typeError), s) := by
+  unfold syncCall parseParams
+  simp only [hdb, if_true]
+  rfl
 
 theorem safe_parseResult (W : DataWorld V) (hw : ∀ s, Safe (W.warn s)) (o : Opts) (F : FuncDecl V) (r : V) :
     Safe (parseResult W o F r) := by
@@ -609,11 +633,11 @@ theorem seq_body_irrelevant_on_error (W : DataWorld V) (L : Legacy) (o : Opts) (
 /-- **the only non-ParseError exception a decorated call can produce is one its own body raised**:
 the arguments parsed, the body was entered with them, and the body itself ended with that exception -/
 theorem C04_call_escape_only_from_body (W : DataWorld V) (hw : ∀ s, Safe (W.warn s)) (o : Opts) (F : FuncDecl V)
-    (body : List V → List (Nat × V) → M V) (args : List V) (kw : List (Nat × V)) (s : St)
+    (body : List V → List (Nat × V) → M V) (args : List V) (kw : List (Nat × V)) (hwf : doubleBound F args kw = false) (s : St)
     (hesc : (syncCall W Legacy.none o F body args kw s).1.escapes = true) :
     ∃ p s1, parseParams W Legacy.none o F args kw s = (.ok p, s1) ∧
       (body p.1 p.2 { s1 with trace := s1.trace ++ [.enterBody] }).1.escapes = true := by
-  have hp := (C04_parse_params_no_escape W hw o F args kw).h s
+  have hp := (C04_parse_params_no_escape W hw o F args kw hwf).h s
   unfold syncCall at hesc
   rw [bind_apply] at hesc
   rcases h : parseParams W Legacy.none o F args kw s with ⟨r, s1⟩
@@ -641,13 +665,13 @@ theorem C04_call_escape_only_from_body (W : DataWorld V) (hw : ∀ s, Safe (W.wa
 /-- corollary: a body that raises only ParseErrors (or nothing) gives a call that does too -/
 theorem C04_call_no_escape (W : DataWorld V) (hw : ∀ s, Safe (W.warn s)) (o : Opts) (F : FuncDecl V)
     (body : List V → List (Nat × V) → M V) (hbody : ∀ a k, Safe (body a k)) (args : List V)
-    (kw : List (Nat × V)) : Safe (syncCall W Legacy.none o F body args kw) := by
+    (kw : List (Nat × V)) (hwf : doubleBound F args kw = false) : Safe (syncCall W Legacy.none o F body args kw) := by
   constructor
   intro s
   cases hesc : (syncCall W Legacy.none o F body args kw s).1.escapes with
   | false => rfl
   | true =>
-    obtain ⟨p, s1, _, hb⟩ := C04_call_escape_only_from_body W hw o F body args kw s hesc
+    obtain ⟨p, s1, _, hb⟩ := C04_call_escape_only_from_body W hw o F body args kw hwf s hesc
     rw [(hbody p.1 p.2).h] at hb
     cases hb
 
@@ -863,18 +887,26 @@ macro "dterm_close" hW:ident : tactic => `(tactic| first
   | exact ($hW).base.conv _ _ | exact ($hW).toDict _ | exact ($hW).castKeys _ | exact ($hW).readMapping _
   | exact ($hW).discLookup _ _ | exact ($hW).neq _ _ | exact ($hW).base.warn _)
 
-theorem term_fieldConvert (W : DataWorld V) (hW : W.Terminates) (o : Opts) (f : FieldDecl V) (t : Ty) (v : V)
-    (b : Bool) : Term (fieldConvert W o f t v b) := by
-  unfold fieldConvert
+theorem term_invalidValue (W : DataWorld V) (hW : W.Terminates) (o : Opts) (f : FieldDecl V) (e : Exc) (raw : V)
+    (b : Bool) : Term (invalidValue W o f e raw b) := by
+  unfold invalidValue
   term_auto
   all_goals dterm_close hW
+
+theorem term_fieldConvert (W : DataWorld V) (hW : W.Terminates) (o : Opts) (f : FieldDecl V) (t : Ty) (v raw : V)
+    (b : Bool) : Term (fieldConvert W o f t v raw b) := by
+  have hi := fun e => term_invalidValue W hW o f e raw b
+  unfold fieldConvert
+  term_auto
+  all_goals first | exact hi _ | dterm_close hW
 
 theorem term_parseValue (W : DataWorld V) (hW : W.Terminates) (L : Legacy) (o : Opts) (f : FieldDecl V)
     (v : V) (b : Bool) : Term (parseValue W L o f v b) := by
   have h := term_fieldConvert W hW o f
+  have hi := fun e => term_invalidValue W hW o f e v b
   unfold parseValue
   term_auto
-  all_goals first | exact h _ _ _ | dterm_close hW
+  all_goals first | exact h _ _ _ _ | exact hi _ | dterm_close hW
 
 theorem term_parseAddition (W : DataWorld V) (hW : W.Terminates) (o : Opts) (P : ParserDecl V) (k : Nat)
     (v : V) : Term (parseAddition W o P k v) := by
@@ -1045,18 +1077,26 @@ macro "quiet_close" hW:ident : tactic => `(tactic| first
   | exact ($hW).conv _ _ | exact ($hW).warn _ | exact ($hW).toDict _ | exact ($hW).castKeys _
   | exact ($hW).readMapping _ | exact ($hW).discLookup _ _ | exact ($hW).neq _ _)
 
-theorem quiet_fieldConvert (W : DataWorld V) (hW : W.QuietW) (o : Opts) (f : FieldDecl V) (t : Ty) (v : V) (b : Bool) :
-    Quiet (fieldConvert W o f t v b) := by
-  unfold fieldConvert
+theorem quiet_invalidValue (W : DataWorld V) (hW : W.QuietW) (o : Opts) (f : FieldDecl V) (e : Exc) (raw : V) (b : Bool) :
+    Quiet (invalidValue W o f e raw b) := by
+  unfold invalidValue
   quiet_auto
   all_goals quiet_close hW
+
+theorem quiet_fieldConvert (W : DataWorld V) (hW : W.QuietW) (o : Opts) (f : FieldDecl V) (t : Ty) (v raw : V) (b : Bool) :
+    Quiet (fieldConvert W o f t v raw b) := by
+  have hi := fun e => quiet_invalidValue W hW o f e raw b
+  unfold fieldConvert
+  quiet_auto
+  all_goals first | exact hi _ | quiet_close hW
 
 theorem quiet_parseValue (W : DataWorld V) (hW : W.QuietW) (L : Legacy) (o : Opts) (f : FieldDecl V) (v : V) (b : Bool) :
     Quiet (parseValue W L o f v b) := by
   have h := quiet_fieldConvert W hW o f
+  have hi := fun e => quiet_invalidValue W hW o f e v b
   unfold parseValue
   quiet_auto
-  all_goals first | exact h _ _ _ | quiet_close hW
+  all_goals first | exact h _ _ _ _ | exact hi _ | quiet_close hW
 
 theorem quiet_parseAddition (W : DataWorld V) (hW : W.QuietW) (o : Opts) (P : ParserDecl V) (k : Nat) (v : V) :
     Quiet (parseAddition W o P k v) := by
@@ -1224,6 +1264,10 @@ theorem C04_parse_params_ok_clean (W : DataWorld V) (L : Legacy) (o : Opts) (F :
     (kw : List (Nat × V)) (s s' : St) (p : List V × List (Nat × V))
     (hok : parseParams W L o F args kw s = (.ok p, s')) : s'.errors = [] ∧ s'.tmp = [] := by
   unfold parseParams at hok
+  by_cases hdb : doubleBound F args kw = true
+  · simp [hdb, raise] at hok
+  have hdb' : doubleBound F args kw = false := by simpa using hdb
+  simp only [hdb', Bool.false_eq_true, if_false] at hok
   rw [bind_apply] at hok
   rcases h1 : posArgs W L o F args 0 [] [] s with ⟨r1, s1⟩
   rw [h1] at hok
@@ -1530,6 +1574,7 @@ def wData : DataWorld Nat where
   unpack := fun _ => []
   reservedKey := fun _ => true
   discLookup := fun _ _ => raise (builtinExc K.typeError)        -- unhashable discriminator value
+  isBranchInstance := fun _ _ => false
   noInput := fun _ _ => false
   neq := fun _ _ => raise (builtinExc 107)                       -- Decimal('sNaN') != x
   depsLack := fun _ => false
